@@ -115,7 +115,7 @@ def run(chk):
                     continue
                 if ev[0] == "write" and not re.search(r"incfile|\.0$", sym.fmt(ev[1])):
                     continue
-                extra = [g for g in guards.guard_set(b, S, blk) if not re.fullmatch(r"discr\(arg1\) == \w+(\|\w+)*", g) and not re.fullmatch(r"discr\(arg1(\.[\w|.]+)*\) == Some", g)]
+                extra = [g for g in guards.guard_set(b, S, blk) if not re.fullmatch(r"discr\(arg1\) == \w+(\|\w+)*", g) and not re.fullmatch(r"discr\(arg1(\.(\d+|items))*(\|arg1(\.(\d+|items))*)*\) == Some", g)]
                 n += 1
                 if extra:
                     chk.add(Finding("R16-ifdata", "R16-ifdata::conditional::" + ("recurse" if ev[0] == "call" else "clear"), "GenericIfData::merge_includes %s only under the additional condition %s: items below an element that was not itself included (or already cleared) keep their /include origin" % ("descends into nested items" if ev[0] == "call" else "clears the include origin", extra), b.where(ev[4])))
